@@ -238,7 +238,7 @@ def canon_state(box, pool, ret):
     ppw = tuple(sorted((ids[k], tuple(v)) for k, v in pool._pending_per_worker.items()))
     return (pool._pending, ppw, tuple(pool._retries), tuple(sorted(ids[c] for c in pool._closed)), pool._depleted,
             tuple(sorted(ret)), tuple(sorted(box.finished_cb)), box.consumed, ws, box.deaths_left,
-            tuple(ids[k] for k in pool._queues.keys()))
+            tuple(ids[k] for k in pool._queues.keys()), tuple(sorted(getattr(box, 'efn_state', ()))))
 
 
 def _msgkey(m):
@@ -403,7 +403,18 @@ def make_enqueue_fn(box, kind):
             return False
         worker.enqueue(*inp)
         return True
-    return {'always': always, 'w0odd': w0_refuses_odd, 'w0all': w0_refuses_all, 'parity': parity}[kind]
+    raised = set()
+    box.efn_state = raised          # part of the explored state
+
+    def raises_once(worker, *inp):
+        # a transient failure of the user's function: it raises the first time it sees input 2 (the worker is alive and well)
+        box.tick()
+        if inp[0] == 2 and 2 not in raised:
+            raised.add(2)
+            raise ConnectionError('transient failure of the user enqueue function')
+        worker.enqueue(*inp)
+        return True
+    return {'always': always, 'w0odd': w0_refuses_odd, 'w0all': w0_refuses_all, 'parity': parity, 'raise-once': raises_once}[kind]
 
 
 def judge(box, out):
@@ -413,8 +424,10 @@ def judge(box, out):
     genuine = sorted(VALUE(x) for x in inputs)
     v = []
     tag = 'retry-%s' % ('on' if cfg['retry'] else 'off')
-    if cfg.get('enqueue_fn') and cfg['enqueue_fn'] != 'always':
+    if cfg.get('enqueue_fn') and cfg['enqueue_fn'] not in ('always', 'raise-once'):
         tag += '/refusing-enqueue_fn'
+    if cfg.get('enqueue_fn') == 'raise-once':
+        tag += '/enqueue_fn-raising-once'
     results = None
     if out.kind == 'return':
         results = list(out.results) if out.results is not None else sorted(box.finished_cb)
@@ -458,6 +471,9 @@ def judge(box, out):
         alive = [w.idx for w in box.workers if w.alive]
         if alive:
             v.append(('C08', 'POOLX/PoolError-with-live-worker/%s' % tag, 'PoolError only when every worker is dead or closed'))
+        elif results is not None and cfg.get('return_results', True) and not cfg.get('poison') and sorted(results) == genuine and inputs:
+            # every input has its result: the workers died after the input was finished, not before
+            v.append(('C08', 'POOLX/PoolError-although-every-input-has-its-result/%s' % tag, 'PoolError only if the workers died before the input was finished'))
     if out.kind == 'return' and out.results is None and cfg.get('return_results', True) and cfg['workers'] > 0:
         v.append(('C07', 'POOLX/returned-None/%s' % tag, 'a list'))
     return v
